@@ -931,7 +931,9 @@ func (a *typedArrayObject) deleteStr(name unistring.String, throw bool) bool {
 	idx, ok := strToIntNum(name)
 	if ok {
 		if a.isValidIntegerIndex(idx) {
-			a.val.runtime.typeErrorResult(throw, "Cannot delete property '%d' of %s", idx, a.val.String())
+			if throw { // build the message (which converts the object to a string: user code) only when it is thrown
+				panic(a.val.runtime.NewTypeError("Cannot delete property '%d' of %s", idx, a.val.String()))
+			}
 			return false
 		}
 		return true
@@ -944,7 +946,9 @@ func (a *typedArrayObject) deleteStr(name unistring.String, throw bool) bool {
 
 func (a *typedArrayObject) deleteIdx(idx valueInt, throw bool) bool {
 	if a.viewedArrayBuf.ensureNotDetached(false) && idx >= 0 && int64(idx) < int64(a.length) {
-		a.val.runtime.typeErrorResult(throw, "Cannot delete property '%d' of %s", idx, a.val.String())
+		if throw {
+			panic(a.val.runtime.NewTypeError("Cannot delete property '%d' of %s", idx, a.val.String()))
+		}
 		return false
 	}
 
